@@ -90,8 +90,23 @@ def _build_member(name):
     from gen import schemas
     from oracle import canon
     S = setup()
-    sch = migrate(S['std'], schemas.sdl(name))
+    from edb import errors
+    try:
+        sch = migrate(S['std'], schemas.sdl(name))
+    except errors.EdgeDBError as e:
+        return name, None, f'{type(e).__name__}: {e}'
     return name, sch, canon.canon(sch)
+
+
+def replay_family_build(ctx, data):
+    """Replay of a family-build violation (any of C02 / C03 / C10)."""
+    if data.get('origin') != 'family-build':
+        return False
+    n, sch, msg = _build_member(data['name'])
+    print('replay: family-build', n, 'built' if sch is not None else msg)
+    if sch is None:
+        ctx.violation(f'family-build|{n}', msg, data)
+    return True
 
 
 def family_built(ctx, names):
@@ -125,6 +140,22 @@ def family_built(ctx, names):
             return pickle.load(f)
     setup()   # results (schemas) are unpickled in this process
     res = runner.pmap(ctx, 'props.schemax', '_build_member', list(names))
+    failed = [(n, c) for n, s, c in res if s is None]
+    for n, msg in failed:
+        # every family member is accepted on the unchanged tree; a member the
+        # tree no longer builds through START MIGRATION TO / POPULATE /
+        # COMMIT means the DDL the system generated for it was rejected
+        ctx.violation(
+            f'family-build|{n}',
+            f'`start migration to {{ {schemas.sdl(n)[:200]} }}; populate '
+            f'migration; commit migration` from the empty schema is '
+            f'rejected: {msg[:200]} (the DDL text generated for the target '
+            f'is not valid input / the target is not reached)',
+            dict(name=n, origin='family-build'))
+    if failed:
+        raise runner.StopCheck(
+            f'{len(failed)} family schema(s) could not be built: '
+            f'{[n for n, _ in failed]}')
     out = {n: (s, c) for n, s, c in res}
     tmp = p.with_suffix('.tmp%d' % os.getpid())
     with open(tmp, 'wb') as f:
